@@ -93,6 +93,11 @@ fn claim_alg(store: &[u8]) -> Option<String> {
 }
 
 fn settings(cfg: &Cfg) -> c2pa::Context {
+    if cfg.kind == "zip" {
+        // restoring a legacy ZIP archive does not keep the caller's context (finding `zipctx|…`): use the
+        // default context on both sides so that the content comparison is not masked by that
+        return c2pa::Context::new();
+    }
     defgen::context(true, cfg.thumbs, cfg.compressed, &json!({"verify": {"remote_manifest_fetch": false}}))
 }
 
@@ -142,6 +147,25 @@ fn sign_and_report(b: &mut Builder, asset: &assets::Asset, alg: &str) -> Result<
             let mut raw: Value = serde_json::from_str(&js).unwrap_or(Value::Null);
             let mut hashes = Vec::new();
             mask_hashes(&mut raw, &mut hashes);
+            // a listed hard binding (c2pa.hash.bmff.*) carries the digest of this very file and the hash
+            // algorithm (compared separately through the claim's alg): mask both
+            if let Some(ms) = raw.get_mut("manifests").and_then(|m| m.as_object_mut()) {
+                for (_, m) in ms.iter_mut() {
+                    if let Some(asserts) = m.get_mut("assertions").and_then(|a| a.as_array_mut()) {
+                        for a in asserts {
+                            if a.get("label").and_then(|l| l.as_str()).map(|l| l.starts_with("c2pa.hash.")).unwrap_or(false) {
+                                if let Some(d) = a.get_mut("data").and_then(|d| d.as_object_mut()) {
+                                    for k in ["hash", "alg"] {
+                                        if d.contains_key(k) {
+                                            d.insert(k.into(), json!("MASKED"));
+                                        }
+                                    }
+                                }
+                            }
+                        }
+                    }
+                }
+            }
             let rep = report::norm_report_value(&raw);
             // resource ids carry manifest labels (uuids): normalise them with the same mapping by
             // running them through the report normaliser inside a stub document
@@ -162,6 +186,7 @@ fn sign_and_report(b: &mut Builder, asset: &assets::Asset, alg: &str) -> Result<
 struct Res {
     class: String,
     violation: Option<(String, String)>,
+    more: Vec<(String, String)>,
     unjudged: Vec<String>,
     counts: BTreeMap<String, u64>,
 }
@@ -195,6 +220,7 @@ fn first_path_class(p: &str, direct: &Value) -> String {
         }
         if name == "assertions" || name == "ingredients" {
             if let Some(l) = cur.and_then(|c| c.get("label")).and_then(|l| l.as_str()) {
+                let l = l.split("__").next().unwrap_or(l);
                 label = Some(if l.starts_with("c2pa.") { l.to_string() } else { "custom".to_string() });
             }
         }
@@ -213,7 +239,7 @@ fn run_case(c: &Case, assets_v: &[assets::Asset], pool: &IngredientPool) -> Res 
     let mut unjudged = Vec::new();
     let asset = assets_v.iter().find(|a| a.name == c.cfg.asset).expect("asset");
     let tag = format!("{}|k{}|{}|{}", c.cfg.kind, c.cfg.k, c.def.shape(), if c.cfg.thumbs { "thumbs" } else { "nothumbs" });
-    let done = |class: String, violation: Option<(String, String)>, unjudged: Vec<String>, counts: BTreeMap<String, u64>| Res { class, violation, unjudged, counts };
+    let done = |class: String, violation: Option<(String, String)>, unjudged: Vec<String>, counts: BTreeMap<String, u64>| Res { class, violation, more: vec![], unjudged, counts };
     let mut b = match report::catch_sdk(|| c.def.build(settings(&c.cfg), pool)) {
         Ok(Ok(b)) => b,
         Ok(Err(e)) => {
@@ -225,11 +251,11 @@ fn run_case(c: &Case, assets_v: &[assets::Asset], pool: &IngredientPool) -> Res 
     // ---- the restored side first (B is not consumed by to_archive)
     let restored: Result<Builder, (String, String)> = (|| {
         match c.cfg.kind.as_str() {
-            "jumbf" | "zip" => {
+            "jumbf" | "zip" | "zipctx" => {
                 let mut cur: Option<Builder> = None;
                 for round in 0..c.cfg.k {
                     let src: &Builder = cur.as_ref().unwrap_or(&b);
-                    let bytes = if c.cfg.kind == "zip" && round == 0 {
+                    let bytes = if c.cfg.kind.starts_with("zip") && round == 0 {
                         legacy_zip(src).map_err(|e| ("harness-zip".to_string(), e))?
                     } else {
                         let mut ar = Cursor::new(Vec::new());
@@ -319,21 +345,47 @@ fn run_case(c: &Case, assets_v: &[assets::Asset], pool: &IngredientPool) -> Res 
     *counts.entry("hashed_uri_digests_masked".into()).or_insert(0) += direct.hashes.len() as u64;
     *counts.entry("hashed_uri_digests_differing(masked)".into()).or_insert(0) += masked_diff as u64;
     *counts.entry("resources_hashed".into()).or_insert(0) += direct.resources.len() as u64;
+    let mut viols: Vec<(String, String)> = Vec::new();
     if direct.claim_alg != after.claim_alg {
-        unjudged.push(format!("hash_alg-not-preserved:{:?}->{:?}", direct.claim_alg, after.claim_alg));
+        viols.push(("hash-alg-not-preserved".to_string(), format!("k={}: claim alg of the direct sign {:?}, of the restored builder's sign {:?} (definition hash_alg {:?})", c.cfg.k, direct.claim_alg, after.claim_alg, c.def.hash_alg)));
     }
-    let mut viol = None;
     if direct.report != after.report {
-        let d = report::diff_paths(&direct.report, &after.report, 8);
-        let first = d.first().cloned().unwrap_or_default();
-        viol = Some((format!("{}|{}", c.cfg.kind, first_path_class(&first, &direct.report)), format!("k={} reports differ (first = direct, second = restored): {:?}", c.cfg.k, d)));
+        let d = report::diff_paths(&direct.report, &after.report, 60);
+        let mut classes: BTreeMap<String, String> = BTreeMap::new();
+        let mut derivative: BTreeMap<String, String> = BTreeMap::new();
+        for p in &d {
+            let cls = first_path_class(p, &direct.report);
+            // success lists only echo which assertions exist
+            if cls.starts_with("validation_results") && cls.contains("success") {
+                derivative.entry(cls).or_insert_with(|| p.clone());
+            } else {
+                classes.entry(cls).or_insert_with(|| p.clone());
+            }
+        }
+        // a dropped ingredient thumbnail renumbers the remaining `c2pa.thumbnail.ingredient__n` labels
+        if classes.keys().any(|k| k.contains("ingredients/thumbnail@")) {
+            classes.retain(|k, _| !k.contains("ingredients/thumbnail/identifier@"));
+        }
+        if classes.is_empty() {
+            classes = derivative;
+        }
+        for (cls, p) in classes.into_iter().take(5) {
+            let prefix = if c.cfg.kind == "zipctx" { "zipctx|context-not-preserved".to_string() } else { format!("{}|{cls}", c.cfg.kind) };
+            if !viols.iter().any(|v| v.0 == prefix) {
+                viols.push((prefix, format!("k={} reports differ (first = direct, second = restored) at {p}", c.cfg.k)));
+            }
+        }
     } else if direct.codes != after.codes || direct.state != after.state {
-        viol = Some((format!("{}|validation-codes", c.cfg.kind), format!("state {} vs {}; codes only in direct {:?}; only in restored {:?}", direct.state, after.state, direct.codes.iter().filter(|x| !after.codes.contains(x)).collect::<Vec<_>>(), after.codes.iter().filter(|x| !direct.codes.contains(x)).collect::<Vec<_>>())));
+        viols.push((format!("{}|validation-codes", c.cfg.kind), format!("state {} vs {}; codes only in direct {:?}; only in restored {:?}", direct.state, after.state, direct.codes.iter().filter(|x| !after.codes.contains(x)).collect::<Vec<_>>(), after.codes.iter().filter(|x| !direct.codes.contains(x)).collect::<Vec<_>>())));
     } else if direct.resources != after.resources {
-        viol = Some((format!("{}|resources", c.cfg.kind), format!("resources differ: direct {:?} restored {:?}", direct.resources, after.resources)));
+        viols.push((format!("{}|resources", c.cfg.kind), format!("resources differ: direct {:?} restored {:?}", direct.resources, after.resources)));
     }
-    let outcome = if viol.is_some() { "differs" } else { "equal" };
-    done(format!("{tag}|{}|{outcome}", direct.state), viol, unjudged, counts)
+    let outcome = if viols.is_empty() { "equal" } else { "differs" };
+    let mut it = viols.into_iter();
+    let first = it.next();
+    let mut r = done(format!("{tag}|{}|{outcome}", direct.state), first, unjudged, counts);
+    r.more = it.collect();
+    r
 }
 
 fn main() {
@@ -343,8 +395,8 @@ fn main() {
     run.assumptions = vec![
         "digest values inside hashed URIs are masked before comparison (counted: hashed_uri_digests_differing(masked))".into(),
         "to_archive/write_ingredient_archive returning an error makes the premise false: unjudged".into(),
-        "the claim hash algorithm is not among the statement's listed contents: its loss through an archive is reported as unjudged:hash_alg-not-preserved".into(),
-        "legacy ZIP archives are written by the harness (manifest.json = serde JSON of the Builder); only definitions without ingredients/thumbnails".into(),
+        "the claim hash algorithm (read from the returned store) must survive the archive: it changes the listed hard-binding assertion of BMFF assets; digest/alg fields of listed c2pa.hash.* assertions are masked in the report comparison".into(),
+        "legacy ZIP archives are written by the harness (manifest.json = serde JSON of the Builder); only definitions without ingredients; both sides use the default Context because the ZIP restore path drops the caller's context (directed case zipctx)".into(),
     ];
     let assets_v: Vec<assets::Asset> = assets::tiny_assets();
     let pool = defgen::ingredient_pool();
@@ -385,8 +437,33 @@ fn main() {
             def.intent = Intent::Create;
         }
         let a = &assets_v[r.usize(assets_v.len())];
-        let cfg = Cfg { asset: a.name.clone(), alg: signers::ALGS[r.usize(7)].0.to_string(), thumbs: kind != "zip" && r.chance(1, 3), compressed: r.chance(1, 5), kind: kind.to_string(), k: 1 + (i / 10) % 3 };
+        let cfg = Cfg { asset: a.name.clone(), alg: signers::ALGS[r.usize(7)].0.to_string(), thumbs: kind != "zip" && r.chance(1, 3), compressed: kind != "zip" && r.chance(1, 5), kind: kind.to_string(), k: 1 + (i / 10) % 3 };
         cases.push(Case { def, cfg });
+    }
+    // ---- directed cases (run on every invocation so that listed findings stay deterministic)
+    {
+        let plain = |intent: Intent| GenDef { title: Some("directed".into()), cgi: vec![], vendor: None, claim_version: None, hash_alg: None, assertions: vec![defgen::GenAssertion { label: "org.verif.d".into(), json_kind: false, via: defgen::Via::Definition, data: json!({"d": 1}), steer: None }], actions: vec![], actions_via_api: false, ingredients: vec![], intent, redactions: vec![] };
+        let cfg = |kind: &str, asset: &str, thumbs: bool| Cfg { asset: asset.into(), alg: "ed25519".into(), thumbs, compressed: false, kind: kind.into(), k: 1 };
+        let unsigned_jpg = pool.items.iter().position(|i| i.name == "unsigned:tiny.jpg").unwrap_or(0);
+        let signed_jpg = pool.items.iter().position(|i| i.name == "signed:tiny.jpg").unwrap_or(0);
+        // (1) legacy ZIP restored into a builder that was given a non-default context
+        cases.push(Case { def: plain(Intent::Create), cfg: cfg("zipctx", "tiny.png", false) });
+        // (2) ingredient thumbnails (thumbnails enabled): a signed ingredient whose own manifest has no claim
+        // thumbnail gets a freshly generated one, so does an unsigned one
+        let mut d = plain(Intent::Create);
+        d.ingredients.push(defgen::GenIngredient { pool: signed_jpg, relationship: "componentOf".into(), title: Some("thumb signed".into()), label: Some("ing_0".into()) });
+        d.ingredients.push(defgen::GenIngredient { pool: unsigned_jpg, relationship: "componentOf".into(), title: Some("thumb unsigned".into()), label: Some("ing_1".into()) });
+        cases.push(Case { def: d.clone(), cfg: cfg("jumbf", "tiny.png", true) });
+        cases.push(Case { def: d, cfg: cfg("ingredient", "tiny.png", true) });
+        // (3) hash_alg
+        let mut d = plain(Intent::Create);
+        d.hash_alg = Some("sha512".into());
+        cases.push(Case { def: d, cfg: cfg("jumbf", "tiny.png", false) });
+        // (4) redaction of an assertion of a signed parent
+        let mut d = plain(Intent::Edit);
+        d.ingredients.push(defgen::GenIngredient { pool: signed_jpg, relationship: "parentOf".into(), title: Some("parent".into()), label: None });
+        d.add_redaction(0, &pool);
+        cases.push(Case { def: d, cfg: cfg("jumbf", "tiny.jpg", false) });
     }
     let results = par::par_map_watch(cases.len(), 600, |i| println!("INCONCLUSIVE: property=C22 watchdog: case {i} exceeded 600 s"), |i| run_case(&cases[i], &assets_v, &pool));
     let mut unjudged: BTreeMap<String, u64> = BTreeMap::new();
@@ -407,7 +484,10 @@ fn main() {
         let w = json!({"def": cases[i].def, "cfg": cases[i].cfg});
         run.sample(if r.violation.is_some() { "violating" } else if judged { "held" } else { "unjudged" }, 2, json!({"cfg": cases[i].cfg, "shape": cases[i].def.shape()}));
         if let Some((sig, what)) = &r.violation {
-            run.violation(sig, what, w);
+            run.violation(sig, what, w.clone());
+        }
+        for (sig, what) in &r.more {
+            run.violation(sig, what, w.clone());
         }
     }
     run.set("unjudged", json!(unjudged));
